@@ -188,8 +188,8 @@ def run_check(pid: str, tier: str, seed: int, replay: str | None = None) -> int:
 
     # ---- 4. search when an obligation broke and nothing differed yet --------------
     searched = 0
-    if broken and not any(v.found_input for v in vios) and ok and not replay and hasattr(P, "cases") \
-            and tier == "quick":
+    if broken and not any(v.found_input and v.signature not in known_sigs for v in vios) and ok \
+            and not replay and hasattr(P, "cases") and tier == "quick":
         extra = P.cases("thorough", seed + 1)
         extra = extra[: getattr(P, "SEARCH_CAP", 4000)]
         searched = len(extra)
